@@ -181,6 +181,33 @@ example (buf sfx : Bytes) (hb : 44 ≤ buf.length) (hs : sfx.length = 65492) :
 /-- (suffixes of these lengths exist) -/
 example : (List.replicate 65492 (0 : UInt8)).length = 65492 := List.length_replicate ..
 
+/-- **Constructor-validated header fields round trip.**  A header whose version went through `PtpVersion::new`,
+    whose sdoId went through `SdoId::try_from` (both accepting) and whose plain integer fields are any `u8` / `u16` /
+    `i8` values serialises (with any well-formed body and valid TLV set) to bytes that parse back to an equal message.
+    The acceptance rules (`PtpVersion.new?`: major, minor < 16; `SdoId.new?`: <= 0xfff) are exactly what the 4-bit /
+    12-bit packing of octets 0, 1 and 5 can carry. -/
+theorem constructed_versions_roundtrip (major minor sdo domain seq li : Nat) (h : Header) (body : Body) (sfx : Bytes)
+    (buf out extra : Bytes) (hc : Header.construct? major minor sdo domain seq li = some h)
+    (hd : domain < 256) (hs : seq < 2 ^ 16) (hl : li < 256) (hb : body.WF)
+    (hsfx : TlvSet.deserialize sfx = .ok sfx)
+    (hser : ({ header := h, body, suffix := sfx } : Message).serialize buf = .ok out) :
+    Message.deserialize (out ++ extra) = .ok { header := h, body, suffix := sfx } :=
+  ser_then_parse _ buf out extra ⟨(Header.construct_wf _ _ _ _ _ _ h hc hd hs hl).1, hb⟩ hsfx hser
+
+/-- the constructors accept the extremes 15 / 0xfff and reject 16 / 0x1000 -/
+example : (Header.construct? 15 15 0xfff 255 65535 255).isSome = true ∧
+    Header.construct? 2 16 0 0 0 0 = none ∧ Header.construct? 16 0 0 0 0 0 = none ∧
+    Header.construct? 2 1 0x1000 0 0 0 = none ∧ PtpVersion.new? 0 0 = some (0, 0) ∧
+    PtpVersion.new? 255 1 = none ∧ PtpVersion.new? 1 17 = none := by decide
+
+/-- the acceptance rule cannot be widened: a version 2.16 header (reachable only by by-passing `PtpVersion::new`,
+    e.g. `Header::new(16)`, which does not validate its argument) serialises but parses back as 2.0 -/
+example :
+    (({ header := Header.new 16, body := .sync ⟨0, 0⟩, suffix := [] } : Message).serialize (List.replicate 44 0)).toOption
+      = some wCanon ∧
+    (Message.deserialize wCanon).toOption = some { header := Header.new 0, body := .sync ⟨0, 0⟩, suffix := [] } := by
+  decide +kernel
+
 /-! ### non-vacuity -/
 
 /-- an Announce with every flag set, a profile-specific accuracy and two TLVs, the last one EMPTY: meets the
@@ -217,6 +244,7 @@ end NtpVerif.C41
 #print axioms NtpVerif.C41.builder_sets_valid
 #print axioms NtpVerif.C41.serialisable_lt_65536
 #print axioms NtpVerif.C41.oversize_refused
+#print axioms NtpVerif.C41.constructed_versions_roundtrip
 #print axioms NtpVerif.C41.parse_total
 #print axioms NtpVerif.C41.iterate_total
 #print axioms NtpVerif.C41.parse_then_ser_partial
